@@ -29,7 +29,7 @@ package adapter
 
 //@ func (p *IBCParser) ParsePayload(memoBz) (payload, err)
 //@   requires[base] p != nil
-//@   ensures[base] err == nil ==> payloadOK(payload)
+//@   ensures[base,C15] err == nil ==> payloadOK(payload)
 
 // ParsePacket: on success the coin is the unprefixed (Noble-side) denomination, which is native, with
 // the amount the ICS-20 data states; "not for orbiter" is reported only for non-ICS-20 data or a
@@ -43,3 +43,14 @@ package adapter
 //@   ensures[C16]  err == nil ==> prefixof(denomPrefix(ibcPkt(ccPacket).sourcePort, ibcPkt(ccPacket).sourceChannel), dataOf(ccPacket).Denom)
 //@   ensures[C16]  err == nil ==> result.Coin.Denom == unprefixed(dataOf(ccPacket).Denom, ibcPkt(ccPacket).sourcePort, ibcPkt(ccPacket).sourceChannel) && tracePath(result.Coin.Denom) == ""
 //@   ensures[C16]  err == nil ==> okInt(dataOf(ccPacket).Amount) && val(result.Coin.Amount) == parseInt(dataOf(ccPacket).Amount)
+
+// ---------------------------------------------------------------------------------------------
+// Only well-formed payloads are accepted (C15)
+// ---------------------------------------------------------------------------------------------
+
+// The JSON pre-check: a memo is parsed only if it is valid JSON whose single root key is "orbiter"
+// with a non-null value (jsonOK/jsonNumKeys/jsonKeys/jsonVals are the root-level structure of the
+// document as functions of the bytes).
+//@ func (p *JSONParser) Parse(jsonString) (result, err)
+//@   ensures[C15] err == nil ==> jsonOK(strbytes(jsonString)) && jsonNumKeys(strbytes(jsonString)) == 1
+//@   ensures[C15] err == nil ==> jsonKeys(strbytes(jsonString))["orbiter"] && tag(jsonVals(strbytes(jsonString))["orbiter"]) != 0
